@@ -2,7 +2,7 @@ open Util
 (* C15T <hex string> ; refused|ok|nodeadline <http status> <lo ns> <hi ns> *)
 let run inp obs : string option * string option =
   match inp, obs with
-  | "C15T" :: s :: (([] | ["s"] | ["w"] | ["p"] | ["x"]) as variant), [kind; _code; lo; hi] ->
+  | "C15T" :: s :: (([] | ["s"] | ["w"] | ["p"] | ["x"] | ["d"]) as variant), [kind; _code; lo; hi] ->
     let s = bytes_of_hex s in
     let refused = (kind = "refused") in
     let spec =
